@@ -51,8 +51,25 @@ func Sleep(d time.Duration) {
 	Y(0)
 }
 
+func advance(d time.Duration) {
+	target := bump(d)
+	for dueTimer(target) {
+		fireEarliestTimer()
+	}
+}
+
 //go:norace
-func advance(d time.Duration) { simNow += int64(d) }
+func bump(d time.Duration) int64 { simNow += int64(d); return simNow }
+
+//go:norace
+func dueTimer(now int64) bool {
+	for i := range vtimers {
+		if vtimers[i].used && vtimers[i].at <= now {
+			return true
+		}
+	}
+	return false
+}
 
 // ---- seeded randomness for math/rand top-level functions ----
 
